@@ -107,9 +107,86 @@ def _props_rules(ck, P):
     c = [y for y in ir.walk_nodes(b["body"]) if y.get("k") == "mcall" and (y.get("q") or "").endswith(("BTreeMap::insert", "HashMap::insert")) and len(y.get("a", ())) == 2]
     ck.check(len(c) == 1 and len(ps) == 2 and ir.local_hid(c[0]["a"][0]) == ps[0]["hid"] and ir.local_hid(c[0]["a"][1]) == ps[1]["hid"], "R-JOIN", b["q"], "insert stores (key, value)", "GeoProperties::insert does not store (key, value)", ir.loc(b))
 
+NUMERIC_SHAPES = {
+    # what a CSV cell must look like to be typed as a number (reviewed; compared as LANGUAGES, not as pattern texts)
+    "f64": r"^-?[0-9]*\.[0-9]+$",
+    "i64": r"^-[0-9]+$",
+    "u64": r"^[0-9]+$",
+}
+
+
+def csv_typing_rule(ck, P):
+    """R-JOIN|csv-typing: GeoValue::parse_str decides which CSV cells become numbers, and the join key is the parsed value rendered
+    back to text — so what counts as a number decides which row matches which feature.  Every str::parse::<number>() in it sits in
+    the then-branch of `REGEX.is_match(value)` on the function's own argument, and the language of that regex (parsed from the
+    lazy_static pattern literal, regexlang.py) equals the reviewed shape for that type.  A bare f64 parse as fallback accepts
+    `1e3`, `+5`, `inf`, `nan`, `5.` — text cells silently become numbers and the row `1e3` joins the feature with id 1000."""
+    from . import grammar as g, regexlang
+    fb = [b for b in P.bodies if b["q"].endswith("geo::value::GeoValue::parse_str")]
+    if not ck.anchor("R-JOIN", "GeoValue::parse_str", fb, 1):
+        return
+    b = fb[0]
+    vp = [x for p_ in b["params"] for x in ir.pat_binds(p_)]
+    vh = vp[0]["hid"] if vp else None
+
+    def pattern_of(q):
+        ib = [x for x in P.bodies if x["q"].startswith("<" + q + " as core::ops::deref::Deref>::deref::__static_ref_initialize")]
+        if not ib:
+            return None, "no initialiser found"
+        flags = [y["name"] for y in ir.walk_nodes(ib[0]["body"]) if y.get("k") == "mcall" and (y.get("q") or "").startswith("regex::") and y["name"] not in ("build", "unwrap", "new")]
+        lits = [y["v"] for y in ir.walk_nodes(ib[0]["body"]) if y.get("k") == "lit" and y.get("lk") == "str"]
+        if flags or len(lits) != 1:
+            return None, "builder flags %s / %d literals" % (flags, len(lits))
+        return lits[0], None
+    n = 0
+    for y, ps, _ in ir.walk(b["body"]):
+        if not (y.get("k") == "mcall" and (y.get("q") or "") == "str::parse"):
+            continue
+        ty = (y.get("ga") or "[]").strip("[]")
+        if ty not in NUMERIC_SHAPES:
+            continue
+        n += 1
+        key = "%s|csv-typing|%s" % (b["q"], ty)
+        if ir.local_hid(ir.strip(y["recv"])) != vh:
+            ck.violation("R-JOIN", key, "parse::<%s> is applied to something else than the cell text" % ty, ir.loc(y))
+            continue
+        guards = []
+        for i_, p_ in enumerate(ps):
+            if p_.get("k") == "if" and ir.contains(p_["then"], lambda z: z is y):
+                c = ir.unparen(ir.strip(p_["c"]))
+                if c.get("k") == "mcall" and c.get("name") == "is_match" and (c.get("q") or "").startswith("regex::") and ir.local_hid(ir.strip(c["a"][0])) == vh:
+                    guards.append(ir.strip(c["recv"]).get("q"))
+        if len(guards) != 1 or not guards[0]:
+            ck.violation("R-JOIN", key, "parse::<%s>() of a CSV cell is not guarded by exactly one `REGEX.is_match(cell)` (%d found): Rust's number parsers accept more than plain numbers "
+                         "(`1e3`, `+5`, `inf`, `nan`, `5.`), so text cells become numbers and join the wrong feature" % (ty, len(guards)), ir.loc(y))
+            continue
+        pat, why = pattern_of(guards[0])
+        if pat is None:
+            ck.violation("R-JOIN", key, "the pattern of %s could not be read (%s)" % (guards[0].rsplit("::", 1)[-1], why), ir.loc(y))
+            continue
+        try:
+            res = g.equivalent(regexlang.parse(pat), regexlang.parse(NUMERIC_SHAPES[ty]), munch=False)
+        except g.Unextractable as e:
+            ck.violation("R-JOIN", key, "the pattern `%s` is outside the supported regex subset (%s): its language is not decided" % (pat, e), ir.loc(y))
+            continue
+        if res[0]:
+            ck.ok("R-JOIN", key, "a cell is parsed as %s exactly when it matches `%s` (language equal to the reviewed shape `%s`)" % (ty, pat, NUMERIC_SHAPES[ty]), ir.loc(y))
+        else:
+            ck.violation("R-JOIN", key, "cells typed as %s: the pattern `%s` differs from the reviewed shape `%s` — the text `%s` is %s" %
+                         (ty, pat, NUMERIC_SHAPES[ty], res[1], "now a number" if res[2] else "no longer a number"), ir.loc(y))
+    ck.anchor("R-JOIN", "number parses in GeoValue::parse_str", n, 3)
+    # what is no number stays the cell's text
+    fall = [y for y in ir.walk_nodes(b["body"]) if y.get("k") == "mcall" and y.get("name") in ("unwrap_or_else", "unwrap_or") and
+            ir.contains(y["a"][0], lambda z: z.get("k") == "call" and (z.get("q") or "").endswith("GeoValue::String::{Ctor#0}") and
+                        ir.contains(z, lambda w: w.get("k") == "path" and w.get("hid") == vh))]
+    ck.check(len(fall) == 1, "R-JOIN", b["q"] + "|csv-typing|text", "a cell that is no number (or does not fit the number type) stays a String with the cell's text",
+             "the fallback of parse_str is not String(cell text)", ir.loc(b))
+
+
 
 def rules(ck, P):
     _props_rules(ck, P)
+    csv_typing_rule(ck, P)
     mvt.table_fidelity(ck, P)
     mvt.repeated_kept(ck, P)
     mvt.pbf_rules(ck, P)
